@@ -1047,3 +1047,48 @@ def rule_tracing_twins(prog, C, rule, classes=None):
                     C.ok(fa == fb, rule, where, cons, "same reducer", "with tracing switched on the cell holds %s, without it %s" % (show_lin(b[0]), show_lin(a[0])),
                          witness={"inputs": "the same cube computed with func.tracing set: different counts"})
     return n
+
+
+def rule_every_cell_written(prog, C, rule):
+    """Index-cube fill closures: every region store for the presented cell happens for EVERY presented cell.  The walk only
+    presents combinations that have rows, and marginal differencing reconstructs a common cell as margin - sum(visited
+    cells): a cell whose store is skipped on a data-dependent condition (no valid row, a zero weight sum) keeps its
+    initial 0 while the margin still counts its rows - they are charged to the common cell.  Configuration tests (weights
+    None, ignore_missing, tracing) are decided by the configuration oracle and never remain as guards."""
+    n = 0
+    for name in SHARED:
+        for w in weight_modes(name):
+            for ign in (False, True):
+                cfg = aggr.Config(weights=w, ignore=ign, rma="nan")
+                m = model(prog, "ffuncs", "ffunc_" + name, cfg)
+                fill = getattr(m, "fill", None)
+                if not fill:
+                    continue
+                fi2, I2, fr2 = fill
+                for ev in I2.events:
+                    if not (ev.kind == "store_sub" and ev["base"].op == "unpack" and ev["base"].args[0] == tm.param("regions") and ev["index"] == tm.param("x_coords")):
+                        continue
+                    n += 1
+                    where = "%s@%d" % (ev.fi.fq, ev.line)
+                    cons = "%s region %d, weights %s, %s: the cell is written for every presented combination" % (name, ev["base"].args[1], w, "ignore" if ign else "propagate")
+                    data = [g for g in ev.guards if tm.contains(g[0], lambda x: x in (tm.param("x_rowids"), tm.param("x_coords")) or (x.op == "attr" and x.args[1] in ("validity", "summables", "countables", "weights", "arr")))]
+                    other = [g for g in ev.guards if g not in data and not tm.contains(g[0], lambda x: x.op == "attr" and x.args[1] in ("tracing", "_tracing"))]
+                    def operand_of(g):
+                        c = g[0]
+                        if c.op == "call" and (tm.callee_name(c) or "") in ("numpy.any", "numpy.count_nonzero", "builtins.len", ".any") and (c.args[1] or c.args[0].op == "attr"):
+                            return c.args[1][0] if c.args[1] else c.args[0].args[0]
+                        return c
+                    counts_rows = tm.contains(ev["value"], lambda x: x.op == "call" and tm.callee_name(x) == "builtins.len" and x.args[1] and x.args[1][0] == tm.param("x_rowids"))
+                    if data and all(g[1] is True and operand_of(g) == ev["value"] for g in data):
+                        C.add(rule, PROVED, where, cons, "skipped only when the value to store is all zero: the region already holds zeros")
+                    elif data and not counts_rows:
+                        C.add(rule, UNDECIDED, where, cons, "the store is skipped depending on the rows of the cell (%s); whether the skipped value is always the region's initial value is not decided" % tm.show(data[0][0])[:60])
+                    elif data:
+                        C.add(rule, VIOLATED, where, cons,
+                              "the store is skipped depending on the rows of the cell (%s): the skipped cell keeps its initial value while its rows are still in the margin, so marginal differencing adds them to the cell at the common category" % tm.show(data[0][0])[:60],
+                              {"inputs": "ccube.sum, ignore_missing=False: an uncommon cell whose rows are all missing and a fully valid common cell on the same axis - the common cell is reported missing"})
+                    elif other:
+                        C.add(rule, UNDECIDED, where, cons, "the store is conditional on %s" % tm.show(other[0][0])[:60])
+                    else:
+                        C.add(rule, PROVED, where, cons, "unconditional in the fill closure")
+    return n
